@@ -236,7 +236,7 @@ class Run(object):
     def dedup_call(self, t, u):
         d = self.prog["tasks"][u - 1]["dedup"]
         args, kwargs = self.spelling(d)
-        obj = self.dfns[d["fn"]].asynq(*args, **kwargs)
+        obj = self.dfns[d["fn"]][d.get("bind", "fn")].asynq(*args, **kwargs)
         w = self.obj_id.get(id(obj))
         if w is None:
             self.register_task(u, obj, t)
@@ -348,7 +348,27 @@ class Run(object):
             return (yield from run._interp(t))
 
         dfn.__name__ = "dfn%d" % g
-        return dfn
+
+        # the same deduplicated body as an instance method (two instances) and as a static method
+        class DHolder(object):
+            @deduplicate()
+            @asynq.asynq()
+            def dm(self, a, b=0):
+                run = _tls.run if shared else me_run
+                t = run.obj_id[id(_sched.get_active_task())]
+                return (yield from run._interp(t))
+
+            @deduplicate()
+            @asynq.asynq()
+            @staticmethod
+            def ds(a, b=0):
+                run = _tls.run if shared else me_run
+                t = run.obj_id[id(_sched.get_active_task())]
+                return (yield from run._interp(t))
+
+        h1, h2 = DHolder(), DHolder()
+        me_run.keep += [h1, h2]
+        return {"fn": dfn, "inst1": h1.dm, "inst2": h2.dm, "static": DHolder.ds}
 
     def _make_fn(self, t):
         run = self
@@ -431,7 +451,7 @@ class Run(object):
                             elif o == "dirty":
                                 d = run.prog["tasks"][op["a"] - 1]["dedup"]
                                 args, kwargs = run.spelling(d)
-                                run.dfns[d["fn"]].dirty(*args, **kwargs)
+                                run.dfns[d["fn"]][d.get("bind", "fn")].dirty(*args, **kwargs)
                                 run.emit("Dirty", t=t, a=op["a"])
                             else:
                                 raise ValueError(o)
@@ -752,13 +772,13 @@ class VCtx(AsyncContext, _CtxMixin):
     def resume(self):
         self._nresume += 1
         self._run.emit("Resume", a=self._c)
-        if self._faulty == "resume" and self._nresume == 2:
+        if (self._faulty == "resume" and self._nresume == 2) or (self._faulty == "resume_always" and self._nresume >= 2):
             raise self._run.new_err(90000 + self._c)
 
     def pause(self):
         self._npause += 1
         self._run.emit("Pause", a=self._c)
-        if self._faulty == "pause" and self._npause == 1:
+        if (self._faulty == "pause" and self._npause == 1) or self._faulty == "pause_always":
             raise self._run.new_err(90000 + self._c)
 
 
